@@ -21,8 +21,8 @@ SLOT_NOTE = (" Proven domain: the 78 Slotted content models (61 Flat + 7 RootCho
              "Mfull by the correspondence run and the known defects are listed in known_findings.json.")
 
 CHECKS = {
- 'C01': ('matcher', "Theorems C01_tame/C01_reachable/C01_schema: for every history on a Tame template, a passing final check implies the serialised child word is in the pinned schema's content model (via C03.templates_lang_eq and the verified matcher)." + SLOT_NOTE, 'Lean 4 theorems (invariant by induction over operation histories) + differential correspondence real library / Mfull / Msimple'),
- 'C02': ('matcher', "Theorems C02_tame/C02_schema: every word of every Tame content model (unbounded repetition included), supplied in order, is accepted, passes the final check and is serialised as supplied." + SLOT_NOTE, 'Lean 4 theorems over all words of 68 regular languages + differential correspondence'),
+ 'C01': ('matcher', "Theorems C01_tame/C01_reachable/C01_schema: for every history on a Tame template, a passing final check implies the serialised child word is in the pinned schema's content model (via C03.templates_lang_eq and the verified matcher). Lifted to documents by XMLElement operations (replace_child selectors, recursion of the final checks, ElementTree construction) that are tied by the whole-element correspondence, which this check also runs." + SLOT_NOTE, 'Lean 4 theorems (invariant by induction over operation histories) + differential correspondence real library / Mfull / Msimple'),
+ 'C02': ('matcher', "Theorems C02_tame/C02_schema: every word of every Tame content model (unbounded repetition included), supplied in order, is accepted, passes the final check and is serialised as supplied. The whole-element correspondence (nested documents, repeated serialisation between mutations) is run as well." + SLOT_NOTE, 'Lean 4 theorems over all words of 68 regular languages + differential correspondence'),
  'C03': ('tables', "Lean 4 theorems over the complete tables regenerated from /repo on every run (441 element classes, 94 container templates + 98 per-instance copies, 228 attribute tables, 151 simple types, 45+27 groups, schema file hashes) and from the pinned MusicXML 4.0 schema; content models are proved language-equivalent for all words (Particle.equivB_sound), not sampled. Partial: 7 attribute tables that the library cannot even build (open findings F9) are excluded by name; 'accepts exactly the language' at run time is C01/C02.", 'Lean 4 kernel-decided table theorems (decide +kernel) lifted by proved lemmas; translator regenerates tables each run'),
  'C06': ('matcher', "Theorems ordered_perm/ids_nodup_run/C06_tame: on Tame templates, for every history with fresh children, the schema-ordered view is a permutation of the insertion-ordered view (the ledger) and no child occurs twice; parent pointers are checked by the correspondence run." + SLOT_NOTE, 'Lean 4 theorems (refinement to the ledger) + differential correspondence incl. parent pointers'),
  'C07': ('matcher', "Theorems C07_complete_flat / C07_complete_rootChoice (every reachable state of a Tame element can be completed: explicit completion, all of it accepted, final check passes; side condition minOccurs <= maxOccurs decided on the regenerated templates) and C07_reject_needed_flat / _rootChoice (a child is rejected only if no valid arrangement contains it with the present children)." + SLOT_NOTE, 'Lean 4 theorems (explicit completion witness) + differential correspondence; bounded completion search only to classify a broken correspondence'),
@@ -37,7 +37,7 @@ EL_NOTE = (" The theorems are about the hand-written Lean models (Element, Value
            "Known defects outside the proven region are listed in known_findings.json.")
 CHECKS.update({
  'C04': ('element', "Theorems setAttr_ok_iff / setAttr_error_stores_nothing / setAttr_none_removes / setAttr_stores / missingRequired_nil_iff / serialised_eq_store / normKey_idem: assignment succeeds iff the (hyphenated) name is in the type's attribute table and the value validates; errors store nothing; None removes; to_string demands required attributes; the serialised attributes are the store. Tables are tied to the schema by C03. Partial: attribute 'name' by dot (F10), namespace prefixes (F12), 7 broken tables (F9)." + EL_NOTE, 'Lean 4 theorems on the attribute-store model + differential correspondence over class x attribute x value'),
- 'C05': ('values', "Theorems enum_accepts_iff / enum_rejects_other (enumerated types accept exactly their literals), range_exact / minExclusive_exact / minInclusive_exact (numeric facets exact at the boundaries), and kernel-evaluated negative witnesses for the open findings (bool, exponent floats, nan). Patterns are matched by the verified RE matcher on patterns translated from the library's own regexes. Partial: lexical validity of rendered floats rests on CPython's repr (trusted); F13/F14 open." + EL_NOTE, 'Lean 4 theorems on the table-driven validator model + differential correspondence on ~10^4-10^5 (type, value) pairs'),
+ 'C05': ('values', "Theorems enum_accepts_iff / enum_rejects_other (enumerated types accept exactly their literals), range_exact / minExclusive_exact / minInclusive_exact (numeric facets exact at the boundaries), and kernel-evaluated negative witnesses for the open findings (bool, exponent floats, nan). Pattern facets: patterns_agree / pattern_language_is_schema / validator_pattern_is_schema — for each of the 20 pattern-carrying types the regular expression the library compiles has exactly the language of the schema's pattern facet (xs:date: of the W3C lexical form), for all strings, decided in the kernel by the verified equivalence checker SRE.equiv (Core/SRE.lean, equiv_sound); token_pattern_type_accepts_iff_schema: such a type accepts a string iff its white-space-collapsed text matches the schema pattern. When these fail, SRE.witness gives a distinguishing word that is replayed on the real type. Partial: lexical validity of rendered floats rests on CPython's repr (trusted); F13/F14 open." + EL_NOTE, 'Lean 4 theorems on the table-driven validator model, kernel-run verified regex-equivalence checker (library pattern vs schema pattern) + differential correspondence on ~10^4-10^5 (type, value) pairs'),
  'C08': ('parser', "Theorems str_stays_str / int_stays_int / decimal_comes_back_float / value_error_propagates / ladder_result_is_valid on the parser's typing ladder; the whole-document round trip (same infoset, second round trip byte-identical) is validated by the correspondence run real parse_musicxml vs model on generated documents. float()/int() of CPython are oracles supplied to the model (trusted)." + EL_NOTE, 'Lean 4 theorems on the typing-ladder model + differential correspondence on generated documents'),
  'C09': ('parser', "Theorem attr_not_silently_dropped: for every attribute of every input the ladder either raises or stores the attribute under its schema name with one of the three readings of its text (holds for the code since fix ece4d7a). Acceptance of every schema-valid file is partial: it inherits the domains of C02/C04/C05; F12 (namespaced attributes), tail text and lenient numerals are open findings." + EL_NOTE, 'Lean 4 theorem (no silent attribute loss, all inputs) + differential correspondence incl. foreign spellings of documents'),
  'C13': ('element', "The models are functional (frame, fresh_independent); the content of the property is that the code has that structure: established by the correspondence runs (instances interleaved, model run per instance) and by the translator's inventory of class-level state - class_mutables_known / class_cells_known are re-decided on the AST of the current source every run." + EL_NOTE, 'Lean 4 frame theorems + kernel-decided inventory of shared class-level state + differential correspondence'),
